@@ -11,6 +11,12 @@ CLAIMS = {
         "note": "Trusted: Lean kernel; axioms propext/Classical.choice/Quot.sound; the hand-written model Kaira/Poly2.lean, Kaira/GF2m.lean corresponds to algebra.py only as far as the correspondence exercises it; minimal-polynomial irreducibility is checked by correspondence + oracle, not by an unbounded theorem.",
     },
 }
+CLAIMS["C16"] = {
+    "technique": "Lean 4 theorems by induction over update/compute/reset histories (refinement to a log-of-batches specification) + line-protocol correspondence running whole histories on the real metric objects",
+    "text": "Unbounded theorems about the executable model of BitErrorRate / BlockErrorRate (SER/FER aliases): one-shot value is the exact count, symmetric, zero iff equal; the state after any sequence of updates is the count over the concatenated data (stream_eq_oneshot), independent of partition and of batch order (List.Perm); every interleaving of update/compute/reset is simulated by the reference log (history_refinement: compute does not change state, reset restores init); for rows made of blocks of size B: #error blocks <= #error bits <= B*#error blocks and <= #blocks (BER <= BLER <= min(1,B*BER)); the block update rejects exactly non-multiples. Tie: each operation line is a whole history executed on a fresh metric object and on the model (exhaustive histories up to length 4 quick / 5 thorough over a pool of batches, random up to length 200, adversarial pairs, complex inputs, 2-D/3-D rows, block sizes incl. non-divisors, StandardMetrics twins); floats are compared with the model's exact fraction at 1e-6.",
+    "design_ref": "DESIGN.md section 4, C16",
+    "note": "Trusted: Lean kernel + standard axioms; torch thresholding/any/sum on the exercised shapes is tied only by the correspondence; float32 quotient exact only below 2^24 accumulated bits (outside the model).",
+}
 
 NOT_YET = {}
 
